@@ -165,6 +165,7 @@ pub fn run_concurrent(prog: &Program, cfg: &EpCfg) -> EpResult {
 					set_current(Some((w.clone(), tid)));
 					let mut tc = Tc::new(w.clone(), tid, &arena);
 					tc.try_max = try_max;
+					tc.concurrent = true;
 					let r = guarded(|| {
 						w.thread_start(tid);
 						for a in &acqs {
